@@ -278,7 +278,7 @@ var c12Directed = func() [][]c12Op {
 }()
 
 func checkC12(r *mon.Run) {
-	r.Rule = "seeded histories (1..30 ops) over PK, KEK, db, dbx, two ordinary variables and BootOrder: WriteVar(raw bytes), WriteVar(database of n entries), WriteSignedUpdate(database), GetVar(raw spy), GetPK/GetKEK/Getdb/Getdbx; value sizes grow, shrink (incl. to empty) and repeat, interleaved across variables, stores created empty or pre-populated through With(); every read after a write is compared with a per-variable register model (signed writes: the payload). distinct = op sequences with >=1 shrinking overwrite or signed write"
+	r.Rule = "seeded histories (1..30 ops) over PK, KEK, db, dbx, db through a caller-assembled definition, two ordinary variables, two variables whose names differ in case only, a zero-mask variable and BootOrder (2..8 of them per history) plus 18 directed histories on neighbouring variables: WriteVar(raw bytes), WriteVar(database of n entries), WriteSignedUpdate(database), GetVar(raw spy), GetPK/GetKEK/Getdb/Getdbx; value sizes grow, shrink (incl. to empty) and repeat, interleaved across variables, stores created empty or pre-populated through With(); every read after a write is compared with a per-variable register model (signed writes: the payload). distinct = op sequences with >=1 shrinking overwrite or signed write"
 	r.Assume("Open() once per history (each call deliberately builds a fresh store); APPEND_WRITE not used; runs in a sandboxed child because a library exit must be observable")
 	useFakeEfivarsDir()
 	n := r.N(2000, 100000)
